@@ -235,6 +235,90 @@ def run_harness_bin(ctx, bindir, name, args, timeout, env=None):
     return summaries
 
 
+def miri_target_dir():
+    return os.environ.get("VERIF_MIRI_TARGET", os.path.join(BUILD, "t-miri"))
+
+
+def _miri_error_blocks(err):
+    """Split Miri's stderr into its `error: ...` report blocks (title, text)."""
+    blocks, cur = [], None
+    for line in err.splitlines():
+        if line.startswith("error: ") or line.startswith("error["):
+            if cur:
+                blocks.append(cur)
+            cur = [line]
+        elif cur is not None:
+            cur.append(line)
+    if cur:
+        blocks.append(cur)
+    return [(b[0], "\n".join(b)) for b in blocks]
+
+
+def run_under_miri(ctx, crate, binary, arg_sets, timeout, label, warm_args):
+    """Sanitizer supplement: run a harness binary inside the Miri interpreter (`cargo +nightly miri run`), i.e. the
+    real code of /repo with every memory access, borrow and uninitialised read checked, on (small) shards of the same
+    workload and with the same oracles as the native run.
+      * JSONL records of the harness are handled as usual (the oracles run inside Miri too);
+      * an `Undefined Behavior` report whose backtrace has a frame in /repo is a violation; one that lies entirely in
+        third-party crates / std is recorded as inconclusive (never a verdict on the property);
+      * `unsupported operation`, a build failure or the watchdog are inconclusive.
+    Returns (summaries, stats)."""
+    import concurrent.futures as cf
+    cdir = os.path.join(HARNESS, crate)
+    env = base_env({"CARGO_TARGET_DIR": miri_target_dir(), "RUSTFLAGS": GUARD_RUSTFLAGS,
+                    "MIRIFLAGS": "-Zmiri-disable-isolation -Zmiri-ignore-leaks"})
+    base = ["cargo", "+nightly", "miri", "run", "--offline", "--bin", binary, "--"]
+    stats = {"tool": "miri (cargo +nightly miri run, -Zmiri-disable-isolation -Zmiri-ignore-leaks)", "label": label,
+             "processes": 0, "processes_completed": 0, "ub_reports_in_repo_frames": 0, "ub_reports_elsewhere": 0,
+             "unsupported_operations": 0, "cases_interpreted": 0}
+    t0 = time.time()
+    # build once (interpreted sysroot + dependency metadata), with a run that does nothing, so that the shards do not
+    # queue on cargo's build lock with their budgets running
+    rc, out, err, to = run(base + [str(a) for a in warm_args], cwd=cdir, env=env, timeout=timeout)
+    stats["build_s"] = round(time.time() - t0, 1)
+    if to or ("could not compile" in err) or ("error: failed" in err):
+        ctx.inconc("miri build failed or timed out (%s)" % label, {"stderr_tail": err[-1500:]})
+        return [], stats
+
+    def one(args):
+        return run(base + [str(a) for a in args], cwd=cdir, env=env, timeout=timeout)
+
+    summaries = []
+    with cf.ThreadPoolExecutor(max_workers=max(1, len(arg_sets))) as ex:
+        results = list(ex.map(one, arg_sets))
+    for args, (rc, out, err, to) in zip(arg_sets, results):
+        stats["processes"] += 1
+        recs = parse_jsonl(out)
+        for r in recs:
+            if r.get("kind") == "violation":
+                ctx.violation(r.get("sig", {}), r.get("detail"))
+            elif r.get("kind") == "inconclusive":
+                ctx.inconc(r.get("what"), r.get("detail"))
+            elif r.get("kind") == "summary":
+                summaries.append(r)
+                stats["cases_interpreted"] += int(r.get("evaluations", 0) or 0)
+                stats["processes_completed"] += 1
+        if to:
+            ctx.inconc("miri watchdog fired (%s)" % label, {"args": args})
+            continue
+        for title, text in _miri_error_blocks(err):
+            if "Undefined Behavior" in title:
+                frames = [l.strip() for l in text.splitlines() if REPO + "/" in l]
+                if frames:
+                    stats["ub_reports_in_repo_frames"] += 1
+                    ctx.violation({"rule": "miri_undefined_behavior", "title": title[:160], "frame": frames[0][:200]},
+                                  {"report": text[:6000], "args": args, "label": label})
+                else:
+                    stats["ub_reports_elsewhere"] += 1
+                    ctx.inconc("miri reported undefined behaviour outside /repo (third-party crate or std): " + title[:160],
+                               {"report": text[:3000], "args": args})
+            elif "unsupported operation" in title:
+                stats["unsupported_operations"] += 1
+                ctx.inconc("miri: " + title[:200], {"report": text[:2000], "args": args})
+    stats["wall_s"] = round(time.time() - t0, 1)
+    return summaries, stats
+
+
 def merge_summaries(summaries, sum_keys=("evaluations",), sample_cap=6):
     cov = {}
     samples = []
